@@ -140,15 +140,23 @@ func (e *CallEnv) unrecord(tag, in string) {
 // ---- the body shared by all paradigms -----------------------------------------
 
 // InjectedError is the custom error type used by fault plans.
-type InjectedError struct{ Node string }
+type InjectedError struct {
+	Node string
+	EOF  bool // the chain of this failure also ends in io.EOF (e.g. "connection closed: EOF"): still a failure
+}
 
 func (e *InjectedError) Error() string { return "injected failure in " + e.Node }
 
 // ErrSentinel is wrapped by every injected error.
 var ErrSentinel = errors.New("gkit sentinel")
 
-// Unwrap lets errors.Is find the sentinel.
-func (e *InjectedError) Unwrap() error { return ErrSentinel }
+// Unwrap lets errors.Is find the sentinel (and io.EOF for the failures that carry it).
+func (e *InjectedError) Unwrap() []error {
+	if e.EOF {
+		return []error{ErrSentinel, io.EOF}
+	}
+	return []error{ErrSentinel}
+}
 
 func body(ctx context.Context, n *NodeSpec, tag string, in string) (string, error) {
 	env := EnvOf(ctx)
@@ -182,13 +190,13 @@ func body(ctx context.Context, n *NodeSpec, tag string, in string) (string, erro
 	}
 	switch n.Fault {
 	case "err":
-		return "", fmt.Errorf("wrapped: %w", &InjectedError{Node: tag})
+		return "", fmt.Errorf("wrapped: %w", &InjectedError{Node: tag, EOF: n.FaultEOF})
 	case "cancelerr":
 		// the failing body also cancels the run's context: the node's failure is still what the run reports
 		if env.Cancel != nil {
 			env.Cancel()
 		}
-		return "", fmt.Errorf("wrapped: %w", &InjectedError{Node: tag})
+		return "", fmt.Errorf("wrapped: %w", &InjectedError{Node: tag, EOF: n.FaultEOF})
 	case "panic":
 		panic("injected panic in " + tag)
 	case "cancel":
@@ -342,7 +350,7 @@ func mkLambda[I any](n *NodeSpec, tag string) *compose.Lambda {
 			})
 		}
 		if n.Fault == "streamerr" {
-			return streamOf(parts, len(parts)/2, fmt.Errorf("wrapped: %w", &InjectedError{Node: tag}))
+			return streamOf(parts, len(parts)/2, fmt.Errorf("wrapped: %w", &InjectedError{Node: tag, EOF: n.FaultEOF}))
 		}
 		if env := EnvOf(ctx); env != nil && env.Prod != nil {
 			return StartProducer(env.Prod, tag, parts)
@@ -360,7 +368,7 @@ func mkLambda[I any](n *NodeSpec, tag string) *compose.Lambda {
 			if _, err := nodeBody(ctx, Canon(any(in))); err != nil {
 				return "", err
 			}
-			return "", fmt.Errorf("wrapped: %w", &InjectedError{Node: tag})
+			return "", fmt.Errorf("wrapped: %w", &InjectedError{Node: tag, EOF: n.FaultEOF})
 		}
 		return nodeBody(ctx, Canon(any(in)))
 	}
@@ -390,7 +398,7 @@ func mkLambda[I any](n *NodeSpec, tag string) *compose.Lambda {
 			if _, err := nodeBody(ctx, Canon(v)); err != nil {
 				return "", err
 			}
-			return "", fmt.Errorf("wrapped: %w", &InjectedError{Node: tag})
+			return "", fmt.Errorf("wrapped: %w", &InjectedError{Node: tag, EOF: n.FaultEOF})
 		}
 		return nodeBody(ctx, Canon(v))
 	}
@@ -471,6 +479,7 @@ type BuildOpts struct {
 	NewOpts    func(sp *Spec, path string) []compose.NewGraphOption               // e.g. WithGenLocalState
 	AddOrder   []int                                                              // permutation hint for the order of Add* calls (nil = canonical)
 	ExtraComp  []compose.GraphCompileOption                                       // top level only
+	PreCompile []compose.GraphCompileOption                                       // when non-nil: the graph object is first compiled with these options (result dropped), then as specified
 	BranchHook func(sp *Spec, b *Branch, path string, canon string)               // observes branch evaluations
 }
 
@@ -857,6 +866,11 @@ func compileT[I, O any](ctx context.Context, sp *Spec, bo *BuildOpts) (*Runner, 
 	c, ok := ag.(compilable[I, O])
 	if !ok {
 		return nil, fmt.Errorf("built object %T is not compilable", ag)
+	}
+	if bo != nil && bo.PreCompile != nil {
+		if _, err := c.Compile(ctx, bo.PreCompile...); err != nil {
+			return nil, fmt.Errorf("pre-compile: %w", err)
+		}
 	}
 	r, err := c.Compile(ctx, compileOpts(sp, bo, true)...)
 	if err != nil {
